@@ -160,6 +160,14 @@ def run(tier='quick'):
                         'functions it is passed to (spec/domains.json)', floor=100)
     domains.apply_bind_rule(prog, cg, eff, chk, K5)
     domains.apply_width_rule(prog, cg, eff, chk, K5)
+    K6 = chk.rule('K6', 'membership depends on the library only: no static is initialised from a parameter, this or a '
+                        'call (a database uuid cached in a static is shared by every library of the process); the '
+                        'tables that hold crates and memberships are created as the reference dump defines them '
+                        '(AUTOINCREMENT ids are never handed out again)', floor=20)
+    from . import c10 as _c10
+    _c10.runtime_statics(prog, chk, K6)
+    tables_match_reference(prog, chk, K6, ('Playlist', 'PlaylistEntity', 'Crate', 'CrateTrackList', 'List',
+                                           'ListTrackList', 'Track'))
     return chk.finish('value-flow interpretation of the membership operations of both implementations '
                       '(id kinds of bound values, event order), reference graph and triggers read from the DDL '
                       'of every schema version')
